@@ -11,6 +11,7 @@ package gabi
 
 import (
 	"fmt"
+	"sort"
 	"testing"
 	"time"
 
@@ -36,7 +37,7 @@ func c13Statement(m *big.Int, sign int, factor uint, diff *big.Int, sp rangeproo
 func TestVerifC13(t *testing.T) {
 	r := vkit.Start(t, "C13", "completeness", 240*time.Second, 1500*time.Second)
 	defer r.Finish()
-	r.Rule = "attribute m (large, so that bounds stay non-negative); statement sign*(factor*m-bound)=diff for diff in [-3,W] and 2^k, 2^k-1 (k up to 255), sign in {+1,-1}, factor 1..8 with four squares; factor 1 with GenerateSquaresTable(limit) for limit in {16,64} and every diff in [-2, limit+1]; combinations of 2-3 statements on one and two attributes; query sequences of 3 proofs from one reused Statement object whose bound the caller moves in place between queries (earlier proofs must keep verifying and reporting their bound); honest proofs also with every range-proof random draw forced to min/max/short (<=1 deviation); non-trivial = distinct (splitter, sign, factor, diff); oracle: diff>=0 (and within the documented table limit) => proof created, verifies, Proves(statement); diff<0 => ErrFalseStatement"
+	r.Rule = "attribute m (large, so that bounds stay non-negative); statement sign*(factor*m-bound)=diff for diff in [-3,W] and 2^k, 2^k-1 (k up to 255), sign in {+1,-1}, factor 1..8 with four squares; factor 1 with GenerateSquaresTable(limit) for limit in {5,16,17,31,33,64,100} (thorough: + 15,32,63,65,255,256,257) and every diff in [-2, limit+1]; combinations of 2-3 statements on one and two attributes; query sequences of 3 proofs from one reused Statement object whose bound the caller moves in place between queries (earlier proofs must keep verifying and reporting their bound); honest proofs also with every range-proof random draw forced to min/max/short (<=1 deviation); non-trivial = distinct (splitter, sign, factor, diff); oracle: diff>=0 (and within the documented table limit) => proof created, verifies, Proves(statement); diff<0 => ErrFalseStatement"
 	k := vfK("toyA")
 	pk := k.Pk
 	env := vfInstallEnv(t, "C13", r.Seed)
@@ -44,7 +45,11 @@ func TestVerifC13(t *testing.T) {
 	cred := vfMint(k, vfTag("c13-secret"), []*big.Int{m, vfTag("c13-a2"), new(big.Int).Add(m, vfInt(77))}, 1)
 	W := int64(vkit.Pick(40, 300))
 	r.Bounds["window"] = W
-	tables := map[int64]*rangeproof.SquaresTable{16: rangeproof.GenerateSquaresTable(16), 64: rangeproof.GenerateSquaresTable(64)}
+	// table limits on both sides of the powers of 4 and 2 (l_d and the length comparison depend on them)
+	tables := map[int64]*rangeproof.SquaresTable{}
+	for _, lim := range vkit.Pick([]int64{5, 16, 17, 31, 33, 64, 100}, []int64{5, 15, 16, 17, 31, 32, 33, 63, 64, 65, 100, 255, 256, 257}) {
+		tables[lim] = rangeproof.GenerateSquaresTable(lim)
+	}
 	try := func(desc string, stmts map[int][]*rangeproof.Statement, wantOK bool, class string) {
 		r.Eval()
 		var p *ProofD
@@ -118,7 +123,13 @@ func TestVerifC13(t *testing.T) {
 		}
 	}
 	// three squares: every table entry
-	for limit, tab := range tables {
+	var limits []int64
+	for lim := range tables {
+		limits = append(limits, lim)
+	}
+	sort.Slice(limits, func(i, j int) bool { return limits[i] < limits[j] }) // stable case numbering across shards
+	for _, limit := range limits {
+		tab := tables[limit]
 		for _, sign := range []int{1, -1} {
 			if _, mine := r.Next(); !mine {
 				continue
